@@ -14,6 +14,7 @@ def handle (toks : List String) : Option String :=
   | "c02.channels" :: _ => some "judge"
   | "c02.tamper" :: _ => some "judge"
   | "c02.shardtraffic" :: _ => some "judge"
+  | "c02.extraclasses" :: _ => some "judge"
   | _ => none
 
 def oracle (toks : List String) (impl : String) : Option String :=
@@ -61,6 +62,24 @@ def oracle (toks : List String) (impl : String) : Option String :=
       match gates.find? (fun g => (phaseOf g).isNone && !(["reshard_by_prf", "reshard_by_tag"].contains (g.headD ""))) with
       | some g => some s!"fails unclassified shard-to-shard channel {"/".intercalate g}"
       | none => some "holds"
+  | "c02.extraclasses" :: shards :: _ =>
+    -- the last layers of the query must be there to be tampered with (suite c02_lastlayer): with two shards the
+    -- saturating addition of the finalize step, with one shard and more than one proof chunk of rows the saturating
+    -- addition of the second aggregation level; both halves (`add`, `select`), multiplication traffic from all three
+    -- helpers; and every listed class is covered by a protection mechanism
+    if impl.startsWith "abort" || impl.startsWith "panic" || impl == "timeout" then
+      some "fails honest malicious-mode query did not complete"
+    else
+      let rows := (impl.splitOn ",").map fun x => (x.splitOn ":")
+      let need : List String :=
+        if shards == "2" then ["finalize/add/add/bit#", "finalize/add/select/bit#"]
+        else ["aggregate/chunks#/fold#/saturating_add/add/bit#", "aggregate/chunks#/fold#/saturating_add/select/bit#"]
+      match need.find? (fun c => !(rows.contains [c, "123"])) with
+      | some c => some s!"fails gate class {c} (multiplication traffic from all three helpers) not observed: the last layer of the query is not exercised"
+      | none =>
+        match rows.find? (fun r => (classify ((r.headD "").splitOn "/")).isNone) with
+        | some r => some s!"fails helper-to-helper channel not covered by any protection mechanism: {r.headD ""}"
+        | none => some "holds"
   | "c02.tamper" :: _ =>
     if impl.startsWith "abort-or-same" || impl == "untouched" then some "holds"
     else if impl.startsWith "changed" then some "fails tampered run was accepted with a different histogram"
